@@ -133,12 +133,14 @@ def tlc(module, cfg_text, name, env=None, workers=8, args=(), timeout=600, heap=
         r.error = f"TLC timeout after {timeout}s"
         return r
     for line in p.stdout.splitlines():
-        m = _PRINT_RE.match(line)
-        if m:
+        if line.startswith('"') and line.endswith('"'):
             try:
-                r.printed.append(json.loads(_unescape_tla_string(m.group(1))))
+                r.printed.append(json.loads(json.loads(line)))
             except Exception:
-                pass
+                try:
+                    r.printed.append(json.loads(_unescape_tla_string(line[1:-1])))
+                except Exception:
+                    pass
             continue
         m = re.match(r"^(\d+) states generated, (\d+) distinct states found", line)
         if m:
@@ -306,8 +308,7 @@ def load_known(prop):
             if not l or l.startswith("#"):
                 continue
             k = json.loads(l)
-            if k.get("property") == prop or prop in k.get("properties", []):
-                out.append(k)
+            out.append(k)
     return out
 
 
@@ -364,7 +365,7 @@ class Report:
             if k["id"] in self.known_hit:
                 print(f"KNOWN-FINDING: property={self.prop} {k['what']} [{k['id']}; "
                       f"{len(self.known_hit[k['id']])} occurrence(s) this run]")
-            else:
+            elif self.prop in k.get("properties", []) and k.get("replay_in", self.prop) == self.prop:
                 print(f"NOTE known finding not reproduced in this run: {k['id']}")
         replay = None
         if self.violations:
